@@ -147,3 +147,7 @@ impl<'a> Trie<'a> {
         (unit >> 10) << ((unit & (1 << 9)) >> 6)
     }
 }
+
+// verification hook: harness text lives outside the repository (see MANIFEST.hooks)
+#[cfg(any(kani, sudachi_verif))]
+include!(concat!(env!("SUDACHI_VERIF_DIR"), "/dic__lexicon__trie.rs"));
